@@ -26,6 +26,8 @@ class H:
     universe = []      # nodes in label order
     labels = {}        # id(node) -> label
     want_log = True
+    acts = {}          # (kind, label) -> labels of the nodes that hook detaches (re-entrant hooks)
+    depth = 0          # > 0 while a hook action runs: nested hook calls are silent
 
     @classmethod
     def label(cls, node):
@@ -52,7 +54,7 @@ class H:
 
     @classmethod
     def fire(cls, kind, node, args):
-        if not cls.enabled:
+        if not cls.enabled or cls.depth:
             return
         idx = cls.counter
         cls.counter += 1
@@ -62,6 +64,14 @@ class H:
         cls.nfired += 1
         if cls.want_log and len(cls.log) < 80:
             cls.log.append([kind, lab, [cls.label(a) for a in args], cls.snapshot()])
+        todo = cls.acts.get((kind, lab))
+        if todo:
+            cls.depth += 1
+            try:
+                for x in todo:
+                    cls.universe[x].parent = None
+            finally:
+                cls.depth -= 1
         if idx in cls.idx_faults or (kind, lab) in cls.persistent:
             raise HookFault(idx)
 
@@ -207,6 +217,8 @@ def run_one(c, clsname=None):
     H.kinds = []
     H.nfired = 0
     H.want_log = bool(c.get("log", True))
+    H.acts = {(k, n): list(xs) for k, n, xs in c.get("acts", [])}
+    H.depth = 0
     old_limit = sys.getrecursionlimit()
     sys.setrecursionlimit(c.get("reclimit", 250))
     H.enabled = True
@@ -251,6 +263,8 @@ def run_history(c):
         H.kinds = []
         H.nfired = 0
         H.want_log = False
+        H.acts = {}
+        H.depth = 0
         old_limit = sys.getrecursionlimit()
         sys.setrecursionlimit(c.get("reclimit", 250))
         H.enabled = True
